@@ -1781,6 +1781,11 @@ class Tensor:
         except Exception as e:
             graph.restore_old_graph()
             if stale_base is not None:
+                # the restoration pointed the views of `self` at `self`:
+                # they keep their base, too
+                for node in tuple(graph):
+                    if node.tensor._base is self:
+                        node.tensor._base = stale_base
                 self._base = stale_base
             raise e
 
